@@ -8,8 +8,10 @@ Correspondence, three parts (impl/impl_c11.py; judged inside Coq by model/ImgIte
        instance; image.tell() and loop_no after every operation;
  (ii)  fault enumeration: every scenario is run once per call index k of the library's calls
        to PIL convert / resize / alpha_composite / save / tobytes with a failure injected
-       there; observed: /proc/self/fd against its baseline, Image.open / close pairing, the
-       caller's PIL image still usable, image.size and (draw / format) image.tell() kept;
+       there, plus draw() calls whose argument is rejected after the image was opened;
+       observed: Image.open / Image.close pairing (every opened image kept referenced: no
+       help from the garbage collector), /proc/self/fd against its baseline, the caller's
+       PIL image still usable, image.size and (draw / format) image.tell() kept;
  (iii) URL-sourced images served by a local http.server on 127.0.0.1 (200 image, 404,
        non-image body, bad constructor argument): files in the library's temp dir before /
        while open / after close / after failed construction.
@@ -142,6 +144,12 @@ ITER_CORPUS = [
      "source": "file", "spec": "1.1", "repeat": 1, "cached": False, "sizes": [[3, 2]], "ops": [["close"], ["next"], ["seek", 0]]},
     {"part": "iter", "style": "block", "src": {"kind": "new", "seed": 5, "w": 5, "h": 5, "mode": "P", "frames": 2, "fmt": "GIF"},
      "source": "pil", "spec": "1.1", "repeat": -1, "cached": True, "sizes": [[3, 2]], "ops": [["next"], ["next"], ["next"], ["drop"]]},
+    {"part": "iter", "style": "kitty", "src": {"kind": "new", "seed": 5, "w": 5, "h": 5, "mode": "P", "frames": 2, "fmt": "GIF"},
+     "source": "file", "spec": "1.1+L", "repeat": 2, "cached": 100, "sizes": [[3, 2]], "ops": [["drop"]]},
+    # exhaustion of a file source: the image is closed by the StopIteration handler
+    {"part": "iter", "style": "block", "src": {"kind": "new", "seed": 6, "w": 5, "h": 5, "mode": "P", "frames": 2, "fmt": "GIF"},
+     "source": "file", "spec": "1.1", "repeat": 2, "cached": True, "sizes": [[3, 2]],
+     "ops": [["next"], ["next"], ["next"], ["next"], ["next"], ["next"], ["close"]]},
 ]
 
 
@@ -155,14 +163,16 @@ def gen_fault_case(rng, quick):
     method = {"block": [""], "kitty": ["+L", "+W"], "iterm2": ["+L", "+W", "+A"]}[style]
     spec = "1.1" + alpha + rng.choice(method)
     if animated:
-        action = rng.choice(["iter", "iter", "draw_anim", "format", "draw_anim", "n_frames"])
+        action = rng.choice(["iter", "iter", "draw_anim", "format", "draw_anim", "n_frames", "draw_bad"])
     else:
-        action = rng.choice(["format", "format", "str", "draw"])
+        action = rng.choice(["format", "format", "str", "draw", "draw_bad"])
     c = {"part": "fault", "style": style, "src": src, "source": rng.choice(["file", "file", "pil_file", "pil"]),
          "action": action, "spec": spec, "size": [rng.randint(1, 6), rng.randint(1, 3)],
          "cell": [rng.randint(2, 10), rng.randint(4, 20)], "pos0": rng.choice([0, 1, 2]),
          "term": rng.choice(["wezterm", "iterm2", "konsole"]), "kbd": rng.random() < 0.3,
          "max_k": 8 if quick else None}
+    if action == "draw_bad":
+        c["bad"] = rng.choice(["repeat0", "cached0", "style", "cachedstr", "repeatstr"]) if animated else "style"
     if action == "iter":
         c.update(repeat=rng.choice([1, 2, -1]), cached=rng.choice([True, False]), take=rng.randint(0, 4),
                  end=rng.choice(["close", "exhaust", "drop", "close"]))
@@ -208,6 +218,17 @@ FAULT_CORPUS = [
      "source": "file", "action": "format", "spec": "1.1+A", "size": [4, 2], "cell": [4, 4], "pos0": 1, "max_k": None},
     {"part": "fault", "style": "kitty", "src": {"kind": "new", "seed": 3, "w": 8, "h": 6, "mode": "P", "frames": 3, "fmt": "GIF"},
      "source": "file", "action": "n_frames", "spec": "", "size": [4, 2], "cell": [4, 4], "max_k": None},
+    # draw() rejects an argument after _renderer has opened the file: the image must be closed all the same
+    {"part": "fault", "style": "block", "src": {"kind": "new", "seed": 3, "w": 8, "h": 6, "mode": "P", "frames": 3, "fmt": "GIF"},
+     "source": "file", "action": "draw_bad", "bad": "repeat0", "spec": "", "size": [4, 2], "cell": [4, 4], "max_k": None},
+    {"part": "fault", "style": "kitty", "src": {"kind": "new", "seed": 3, "w": 8, "h": 6, "mode": "P", "frames": 3, "fmt": "GIF"},
+     "source": "file", "action": "draw_bad", "bad": "cached0", "spec": "", "size": [4, 2], "cell": [4, 4], "max_k": None},
+    {"part": "fault", "style": "iterm2", "src": {"kind": "new", "seed": 2, "w": 6, "h": 10, "mode": "RGB", "frames": 1, "fmt": "PNG"},
+     "source": "file", "action": "draw_bad", "bad": "style", "spec": "", "size": [2, 3], "cell": [3, 4], "max_k": None},
+    # an iterator that never produced a frame: closed, or dropped
+    {"part": "fault", "style": "kitty", "src": {"kind": "new", "seed": 3, "w": 8, "h": 6, "mode": "P", "frames": 3, "fmt": "GIF"},
+     "source": "file", "action": "iter", "spec": "1.1+W", "size": [2, 2], "cell": [4, 4], "repeat": -1, "cached": True,
+     "take": 0, "end": "drop", "max_k": None},
 ]
 
 URL_KWARGS = {"{}": True, '{"width": 0}': False, '{"height": -3}': False, '{"width": "x"}': False,
@@ -278,25 +299,21 @@ def iter_term(c, r):
         pil_reset_ok = r["pil_tell"] == 0
     keep = r["size_kept"] and r["pil_alive"] and r["fd_delta"] == 0 and pil_reset_ok
     return ("{| it_n := %d; it_repeat := %s; it_cached := %s; it_cache_on := %s; it_pos0 := %s; it_table := %s; "
-            "it_hashes := %s; it_ops := %s; it_obs := %s; it_keep := %s |}" % (
+            "it_hashes := %s; it_ops := %s; it_file := %s; it_obs := %s; it_keep := %s |}" % (
                 n, Z(c["repeat"]), carg, b(r["cache_on"]), Z((c.get("pos0") or 0) % n), zll(r["table"]), zl(r["hashes"]),
-                core.coq_list(c["ops"], op_term), zll([row[:4] for row in r["rows"]]), b(keep)))
+                core.coq_list(c["ops"], op_term), b(c["source"] == "file"), zll([row[:5] for row in r["rows"]]), b(keep)))
 
 
 def fault_expect(c):
-    tell_kept = c["action"] in ("format", "str", "draw", "draw_anim", "n_frames")
-    # explicit closing expected on the fault-free run, except for an iterator that is
-    # closed / dropped before its first frame (its image is released by reference counting)
-    # ... and for the animated draw() of a file source, whose ImageIterator is constructed (opening the
-    # file a second time) and then re-pointed at draw()'s own image: that second image is also released
-    # by reference counting only (ResourceWarning "unclosed file"; the descriptor count is back at once)
-    strict = not (c["action"] == "iter" and c.get("take", 0) == 0) and not (c["action"] == "draw_anim" and c["source"] == "file")
-    return tell_kept, strict
+    return c["action"] in ("format", "str", "draw", "draw_anim", "draw_bad", "n_frames")
+
+
+BAD_ARG_ERRORS = ("ValueError", "TypeError", "StyleError")
 
 
 def frun_term(c, r, fault_free):
     if fault_free:
-        ok = r["raised"] == ""
+        ok = (r["raised"] in BAD_ARG_ERRORS) if c["action"] == "draw_bad" else r["raised"] == ""
     else:
         hit = r["hit"] != ""
         if not hit:
@@ -309,20 +326,15 @@ def frun_term(c, r, fault_free):
             ok = c["action"] == "draw_anim"  # an interrupt during an animation is handled by draw()
         else:
             ok = False
-    return ("{| f_k := %s; f_outcome_ok := %s; f_fd_after := %s; f_fd_end := %s; f_size_kept := %s; f_tell_kept := %s; "
-            "f_pil_alive := %s; f_unclosed_strict := %s |}" % (
-                Z(r["k"]), b(ok), Z(r["fd_after_action"]), Z(r["fd_end"]), b(r["size_kept"]), b(r["tell_kept"]),
-                b(r["pil_alive"]), Z(r["unclosed_strict"])))
+    return ("{| f_k := %s; f_outcome_ok := %s; f_unclosed := %s; f_fd_after := %s; f_fd_end := %s; f_size_kept := %s; "
+            "f_tell_kept := %s; f_pil_alive := %s |}" % (
+                Z(r["k"]), b(ok), Z(r["unclosed"]), Z(r["fd_after_action"]), Z(r["fd_end"]), b(r["size_kept"]),
+                b(r["tell_kept"]), b(r["pil_alive"])))
 
 
 def fault_term(c, r):
-    tell_kept, strict = fault_expect(c)
-    base = dict(r["base"])
-    weak = dict(base)
-    weak.update(fd_after_action=base["fd_after_action_weak"], fd_end=base["fd_end_weak"])
-    runs = [frun_term(c, weak, True)] + [frun_term(c, x, False) for x in r["runs"]]
-    return "{| fc_expect_tell_kept := %s; fc_expect_strict := %s; fc_runs := %s |}" % (
-        b(tell_kept), b(strict), core.coq_list(runs))
+    runs = [frun_term(c, r["base"], True)] + [frun_term(c, x, False) for x in r["runs"]]
+    return "{| fc_expect_tell_kept := %s; fc_runs := %s |}" % (b(fault_expect(c)), core.coq_list(runs))
 
 
 def url_term(c, r):
@@ -431,7 +443,7 @@ def describe(c):
                 f"cached={c['cached']} sizes={c['sizes']} pos0={c.get('pos0', 0)} fail_frame={c.get('fail_frame')} ops=[{ops}]")
     if c["part"] == "fault":
         return (f"fault {c['style']} src={src_str(c['src'])} via {c['source']} action={c['action']} spec={c['spec']!r} "
-                f"size={c['size']} " + " ".join(f"{k}={c[k]}" for k in ("repeat", "cached", "take", "end", "kbd", "style_args") if k in c))
+                f"size={c['size']} " + " ".join(f"{k}={c[k]}" for k in ("bad", "repeat", "cached", "take", "end", "kbd", "style_args") if k in c))
     return f"url {c['style']} ops={c['ops']}"
 
 
@@ -444,12 +456,13 @@ def signature(c):
 
 def explain(c, r):
     if c["part"] == "iter":
-        return {"N": r.get("N"), "table": r.get("table"), "rows(code,frame,tell,loop_no)": [x[:4] for x in r.get("rows", [])][:30],
+        return {"N": r.get("N"), "table": r.get("table"),
+                "rows(code,frame,tell,loop_no,unclosed_images)": [x[:5] for x in r.get("rows", [])][:30],
                 "size_kept": r.get("size_kept"), "fd_delta": r.get("fd_delta"), "pil_alive": r.get("pil_alive"),
                 "pil_tell": r.get("pil_tell")}
     if c["part"] == "fault":
-        bad = [x for x in [r["base"]] + r["runs"] if x.get("fd_after_action") or x.get("fd_end") or not x.get("size_kept")
-               or not x.get("pil_alive") or not x.get("tell_kept")]
+        bad = [x for x in [r["base"]] + r["runs"] if x.get("unclosed") or x.get("fd_after_action") or x.get("fd_end")
+               or not x.get("size_kept") or not x.get("pil_alive") or not x.get("tell_kept")]
         return {"base": r["base"], "offending_runs": bad[:5]}
     return r
 
@@ -466,7 +479,8 @@ def run(ctx):
     codes, errors, impl = evaluate(cases)
     hist = {"part": {}, "iter_style": {}, "iter_ops": {}, "iter_outcomes": {}, "iter_cache_on": 0, "iter_fail_frame": 0,
             "iter_sources": {}, "fault_action": {}, "fault_runs": 0, "fault_hits_by_method": {}, "fault_raised": {},
-            "fault_free_unclosed_strict": 0, "url_ops": {}, "url_errors": {}}
+            "fault_images_opened": 0, "fault_images_left_unclosed": 0, "iter_images_opened": 0, "iter_repeat": {},
+            "iter_cached_arg": {}, "iter_len": {}, "url_ops": {}, "url_errors": {}}
 
     def inc(d, k, v=1):
         d[str(k)] = d.get(str(k), 0) + v
@@ -481,6 +495,10 @@ def run(ctx):
             inc(hist["iter_style"], c["style"])
             inc(hist["iter_sources"], c["source"])
             hist["iter_cache_on"] += bool(r["cache_on"])
+            hist["iter_images_opened"] += r.get("opened", 0)
+            inc(hist["iter_repeat"], c["repeat"])
+            inc(hist["iter_cached_arg"], "bool" if isinstance(c["cached"], bool) else "int")
+            inc(hist["iter_len"], min(len(c["ops"]) // 10 * 10, 40))
             hist["iter_fail_frame"] += c.get("fail_frame") is not None
             for o in c["ops"]:
                 inc(hist["iter_ops"], o[0])
@@ -494,12 +512,15 @@ def run(ctx):
             inc(hist["fault_action"], c["action"])
             evaluations += 1 + len(r["runs"])
             hist["fault_runs"] += 1 + len(r["runs"])
-            hist["fault_free_unclosed_strict"] += max(r["base"]["unclosed_strict"], 0)
+            hist["fault_images_opened"] += r["base"]["opened"] + sum(x["opened"] for x in r["runs"])
+            hist["fault_images_left_unclosed"] += r["base"]["unclosed"] + sum(x["unclosed"] for x in r["runs"])
             for x in r["runs"]:
                 inc(hist["fault_hits_by_method"], x["hit"] or "(not reached)")
                 inc(hist["fault_raised"], x["raised"] or "(none)")
                 if x["hit"]:
                     distinct.add(signature(c) + f"/k{x['k']}")
+            if c["action"] == "draw_bad" and r["base"]["raised"]:
+                distinct.add(signature(c))
         else:
             evaluations += 1
             for o, row in zip(c["ops"], r["rows"]):
@@ -531,18 +552,20 @@ def run(ctx):
             mismatches.append({"case": c, "code": code, "observed": explain(c, r)})
     return {
         "corr_name": "ImgIter.step (two-phase generator) == ImageIterator histories; ImgIterSpec (direct formatting) == the same; "
-                     "fault enumeration + fd / temp-file observation",
+                     "fault enumeration with Image.open / Image.close pairing + fd / temp-file observation",
         "evaluations": evaluations,
         "distinct_nontrivial": len(distinct),
         "rule": "iter: corpus + random histories (3-40 ops of next / seek incl. out-of-range / close / drop / size change; repeat "
                 "1,2,3,-1,-3; cached bool or int around n_frames; 1-3 image sizes incl. dynamic ones; block / kitty / iterm2 with "
                 "LINES, WHOLE and ANIM specifiers; file, PIL-from-file and PIL-from-bytes sources; lion.gif, anim.webp and "
-                "synthetic GIF/WEBP of 2-6 frames; initial seek position; optional deterministic failure of one frame).  "
-                "Non-trivial: >= 2 frames yielded and a seek / size change / close / drop or an exhaustion.  "
-                "fault: each scenario (format / str / draw / animated draw / iteration with early close, exhaustion or drop / "
-                "n_frames) x every index k of the library's PIL convert/resize/alpha_composite/save/tobytes calls "
-                "(first 8 in the quick tier for generated scenarios, all for the corpus); one evaluation per run; non-trivial: "
-                "the fault was reached.  url: open (200 image / 404 / non-image / empty body / bad constructor argument) / use / "
+                "synthetic GIF/WEBP of 2-6 frames; initial seek position; optional deterministic failure of one frame); per "
+                "operation: outcome, frame identity against direct formatting, image.tell(), loop_no, images opened for the "
+                "iterator and not yet closed.  Non-trivial: >= 2 frames yielded and a seek / size change / close / drop or an "
+                "exhaustion.  fault: each scenario (format / str / draw / animated draw / iteration with early close, exhaustion "
+                "or drop incl. before the first frame / n_frames / draw with a rejected repeat, cached or style argument) x every "
+                "index k of the library's PIL convert/resize/alpha_composite/save/tobytes calls (first 8 in the quick tier for "
+                "generated scenarios, all for the corpus); one evaluation per run; non-trivial: the fault was reached or the "
+                "argument was rejected.  url: open (200 image / 404 / non-image / empty body / bad constructor argument) / use / "
                 "close / with / del histories over 3 slots.",
         "samples": [describe(c) for c in (cases[:2] + cases[len(ITER_CORPUS) + 1:len(ITER_CORPUS) + 3] + cases[-2:])],
         "histogram": hist,
@@ -556,7 +579,12 @@ def run(ctx):
             "hash(rendered_size) is injective on the sizes of the history (hypothesis of imgiter_cache_transparent; the real "
             "hashes are fed to the model in the correspondence)",
             "file-descriptor balance, temp-file lifetime and survival of the caller's PIL image depend on Pillow, the OS and "
-            "CPython's reference counting: observed at run time (parts ii, iii), not proved",
+            "CPython: observed at run time (parts ii, iii), not proved; what is proved (skeleton theorems) is that every image "
+            "obtained from _get_image() reaches _close_image() on every path and under every fault position, and what is "
+            "observed is that every Image.open is followed by Image.close() on that image before the call returns",
+            "hand-written skeletons of _get_render_data / _render_image (model/ImgSkel.v): every call other than _close_image has no "
+            "effect on the image passed in; frame=True only for animated images (ImageIterator refuses others)",
+            "the code modelled is /repo + pending_fixes/C11_close_unrendered_images.diff",
         ],
         "trusted": ["impl_c11.py (wrappers around PIL.Image.open and five Image methods, /proc/self/fd listing, local http.server)"],
     }
